@@ -4,5 +4,5 @@ def run(ctx):
     # reconfiguration while timers run and NMT transitions happen in between (product model CoFull: COB-ID / event time / inhibit time /
     # SYNC object writes next to ticks, triggers and every other service)
     import full_check
-    full_check.run(ctx, 300 if ctx.tier == "quick" else 20000)
+    full_check.run(ctx, 300 if ctx.tier == "quick" else 6000)
 VARIANTS = {"default": (), "r4t2": ("CO_RPDO_N=4", "CO_TPDO_N=2"), "r2t4": ("CO_RPDO_N=2", "CO_TPDO_N=4")}
